@@ -5,7 +5,9 @@ SEED="$(cd "$1" && pwd)"; PROP="$2"; TIER="${3:-quick}"
 WT=/tmp/wt-seed-$$
 git -C /repo worktree add -q "$WT" HEAD || exit 2
 trap 'git -C /repo worktree remove --force "$WT" >/dev/null 2>&1; rm -rf /tmp/ev-seed-$$ /tmp/rp-seed-$$' EXIT
-DEMO=$(ls "$SEED"/demo* "$SEED"/test_* 2>/dev/null | head -1)
+# the demos expect to live at <checkout>/out/<k>/ (helper modules locate the checkout relative to themselves)
+mkdir -p "$WT/out" && cp -r "$SEED" "$WT/out/seed"
+DEMO=$(ls "$WT/out/seed"/demo* "$WT/out/seed"/test_* 2>/dev/null | head -1)
 rundemo() { case "$DEMO" in *test_*|*_test.py) (cd "$WT" && AIOHTTP_ROOT="$WT" PYTHONPATH="$WT" timeout 300 /venv/bin/python -m pytest -q -p no:cacheprovider "$DEMO" >/dev/null 2>&1);; *) (cd "$WT" && AIOHTTP_ROOT="$WT" PYTHONPATH="$WT" timeout 300 /venv/bin/python "$DEMO" >/dev/null 2>&1);; esac; echo $?; }
 echo "demo without patch: exit $(rundemo)"
 git -C "$WT" apply "$SEED/patch.diff" || { echo "PATCH DOES NOT APPLY"; exit 2; }
